@@ -266,10 +266,12 @@ class Ctx:
         ev = {'property_id': self.id, 'tier': self.tier, 'seed': self.seed, 'level': level, 'coverage': cov,
               'assumptions': self.assumptions, 'wall_s': round(time.time() - self.t0, 1), 'violations': len(unlisted)}
         if not self.replay and not SCRATCH:
-            os.makedirs(os.path.join(VERIF, 'evidence'), exist_ok=True)
-            tmp = os.path.join(VERIF, 'evidence', self.id + '.json.tmp')
+            # extension checks (ids X..: specification coverage beyond the listed properties) keep their records apart
+            edir = os.path.join(VERIF, 'evidence_ext' if self.id.startswith('X') else 'evidence')
+            os.makedirs(edir, exist_ok=True)
+            tmp = os.path.join(edir, self.id + '.json.tmp')
             json.dump(ev, open(tmp, 'w'), indent=1)
-            os.replace(tmp, os.path.join(VERIF, 'evidence', self.id + '.json'))
+            os.replace(tmp, os.path.join(edir, self.id + '.json'))
         log('[done] %s tier=%s: %d events, %d mc states, %d unlisted violation signature(s), %d known finding(s), %.1fs' %
             (self.id, self.tier, self.events, self.mc_states, len(unlisted), len(listed), time.time() - self.t0))
         return 1 if unlisted else 0
